@@ -55,6 +55,13 @@ PREF = {
        "earlier bugs involves; (c) the EXTREMES OF A COLLECTION: empty input, exactly one element, all elements equal, exactly one element more "
        "than a chunk / batch / page size, the first and the last element of an iteration, a group that becomes empty after filtering. It must "
        "still be realistic and keep all 81 tests passing."),
+ 'l': ("PREFERRED this time, one of: (a) NAMES AND STRINGS that contain the characters the code itself uses as separators or patterns - contig "
+       "names with ':', '-', '*', '.', '|' or '_' (HLA-A*01:01, chrUn_KI270302v1, ERCC-00002, contigs named like numbers or like '*'), sample / "
+       "library / feature names with '_', '.', ',', ';', ':' or spaces, names that are prefixes of each other, names differing only in case, "
+       "file paths with spaces or dots in directory names; (b) NUMBERS at the edge of exact arithmetic - weights that are sums of halves and "
+       "thirds, integer versus true division, rounding of .5, negative values in floor division or modulo, counts above 2^31 / 2^53, values "
+       "formatted and parsed back (1e+06, 1000000.0, '007'); (c) a DEFAULT that differs between two entry points of the same functionality "
+       "(function default versus command line default versus class attribute). It must still be realistic and keep all 81 tests passing."),
 }
 props = [json.loads(l) for l in open(os.path.join(V, 'properties.jsonl'))]
 tmpl = open('/tmp/agent_prompt_template.txt').read() if os.path.exists('/tmp/agent_prompt_template.txt') else None
